@@ -145,7 +145,7 @@ class Sc:
             P.do("top", "w0.stall /h")                                     # a handler wins over a stall entry
         self.t = 0
 
-    def client(self, stream, cuts, start_ctx=None, at=None, cap=None, spaced=None, close_after=None, node=None, gaps=None):
+    def client(self, stream, cuts, start_ctx=None, at=None, cap=None, spaced=None, close_after=None, node=None, gaps=None, closer=None):
         """a client connecting in context start_ctx (or at time `at`), sending `stream` cut at `cuts`"""
         rng = self.rng; P = self.P
         nd = node or rng.choice(self.others)
@@ -170,7 +170,8 @@ class Sc:
         if close_after is not None:
             k = P.nt; P.nt += 1; ht = P.h()
             P.do(c, "t%d.expires_after %d" % (k, close_after)); P.do(c, "t%d.wait h%d" % (k, ht))
-            P.do("h%d" % ht, "%s.%s" % (s, rng.choice(["close", "close", "destroy"])))
+            how = rng.choice(["close", "close", "destroy"])
+            P.do("h%d" % ht, "%s.%s" % (s, closer or how))
         return s, c
 
     def text(self):
@@ -209,12 +210,12 @@ def sc_rand(rng, sid):
     return S.text()
 
 
-def sc_cut(rng, sid, stream, cuts, keep, seed_cfg, second=True, spaced=False, close=True):
+def sc_cut(rng, sid, stream, cuts, keep, seed_cfg, second=True, spaced=False, close=True, closer=None):
     """the same network / tables for all cuts of one stream (seed_cfg), one client (closing at
     1.5 s or never) + possibly a follower at 4 s"""
     r2 = random.Random(seed_cfg)
     S = Sc(r2, sid, keepalive=keep)
-    S.client(stream, cuts, at=0, cap=48, spaced=spaced, close_after=1500000000 if close else None)
+    S.client(stream, cuts, at=0, cap=48, spaced=spaced, close_after=1500000000 if close else None, closer=closer)
     if second:
         S.client(req("/h"), [], at=4000000000, cap=48)
     S.P.do("top", "run")
@@ -317,7 +318,9 @@ def generate(seed, tier, n=None):
             if end == "closed":
                 out.append(sc_cut(rng, "x%d_%d" % (pi, c), stream, cuts, keep, cseed, spaced=(c % 2 == 1), second=True, close=False))
             else:
-                out.append(sc_cut(rng, "x%d_%d" % (pi, c), stream, cuts, keep, cseed, spaced=(c % 2 == 1), second=True, close=True))
+                # (a destroyed client sends no end-of-file: the follower is then never let in)
+                out.append(sc_cut(rng, "x%d_%d" % (pi, c), stream, cuts, keep, cseed, spaced=(c % 2 == 1), second=True, close=True,
+                                  closer=("destroy" if c % 8 == 7 else "close") if end == "open" else None))
                 out.append(sc_cut(rng, "x%d_%do" % (pi, c), stream, cuts, keep, cseed, spaced=(c % 2 == 1), second=False, close=False))
     # exhaustive pairs of cuts inside a window around the first request boundary, all streams
     for k in range(len(SHORT)):
